@@ -68,18 +68,20 @@ extern "C" int __interceptor_pthread_join(pthread_t t, void **r)
 
 // ---- script alphabet ------------------------------------------------------------------------------------------------
 static const int DELAYS[3] = { 1, 2, 5 }, SLEEPS[2] = { 1, 3 };
-enum Kind { K_ONCE, K_REP, K_REPF1, K_REPF2, K_SLEEP, K_CLEAR };
+enum Kind { K_ONCE, K_REP, K_REPF1, K_REPF2, K_SLEEP, K_CLEAR, K_SLOW };	// K_SLOW: one-shot whose callback takes SLOW_MS of (virtual) time
 struct Step { Kind kind; int ms; };
-static const int NSTEP = 15;	// 12 schedule variants + 2 sleeps + clear
+static const int NSTEP = 18;	// 12 schedule variants + 2 sleeps + clear + 3 slow one-shots
+static const int SLOW_MS = 2;
 static Step step_of(int code)
 {
 	if (code < 12) return Step { (Kind)(code / 3), DELAYS[code % 3] };	// o1 o2 o5 r1 r2 r5 f1 f2 f5 g1 g2 g5
 	if (code < 14) return Step { K_SLEEP, SLEEPS[code - 12] };
-	return Step { K_CLEAR, 0 };
+	if (code == 14) return Step { K_CLEAR, 0 };
+	return Step { K_SLOW, DELAYS[code - 15] };	// s1 s2 s5
 }
 static std::string step_str(const Step& s)
 {
-	static const char L[] = "orfgwc";
+	static const char L[] = "orfgwcs";
 	return s.kind == K_CLEAR ? std::string("c") : std::string(1, L[s.kind]) + std::to_string(s.ms);
 }
 static std::string script_str(const std::vector<Step>& sc)
@@ -90,12 +92,13 @@ static bool parse_script(const std::string& s, std::vector<Step>& sc)
 	std::istringstream is(s); std::string t;
 	while (std::getline(is, t, '.')) {
 		if (t == "c") { sc.push_back(Step { K_CLEAR, 0 }); continue; }
+		if (t[0] == 's' && t.size() >= 2) { sc.push_back(Step { K_SLOW, atoi(t.c_str() + 1) }); continue; }
 		const char *p = strchr("orfgw", t[0]); if (!p || t.size() < 2) return false;
 		sc.push_back(Step { (Kind)(p - "orfgw"), atoi(t.c_str() + 1) });
 	}
 	return true;
 }
-static bool is_sched(Kind k) { return k <= K_REPF2; }
+static bool is_sched(Kind k) { return k <= K_REPF2 || k == K_SLOW; }
 static bool is_rep(Kind k) { return k == K_REP || k == K_REPF1 || k == K_REPF2; }
 static int false_at(Kind k) { return k == K_REPF1 ? 1 : k == K_REPF2 ? 2 : 0; }	// callback returns false from this invocation on (0 = never)
 
@@ -115,7 +118,9 @@ struct Mon {
 		EvRec& e = evs[i]; const int k = (int)e.runs.size() + 1, fa = false_at(e.kind);
 		const bool ret = !(fa && k >= fa);
 		e.runs.push_back((int)rlog.size()); rlog.push_back(RunRec { i, vs_now(), ++gseq, ret });
+		const bool slow = e.kind == K_SLOW;
 		VS_BOOKKEEPING_END();
+		if (slow) hypersleep<h_milliseconds>(SLOW_MS);	// a callback that takes time (the timer's lock is held meanwhile, as the library documents)
 		return ret;
 	}
 	template<int I> bool cb() { return fire(I); }
@@ -205,7 +210,8 @@ static std::string body()
 	// (5) bounded liveness: an event still pending at the horizon whose due time is at least SLACK granules old has not been run
 	for (size_t b = 0; b < evs.size(); ++b) {
 		long long due = 0;
-		if (state_at((int)b, seq_stop, &due) == 1 && due <= t_stop - SLACK * MS)
+		int nslow = 0; for (auto& e : evs) if (e.kind == K_SLOW) ++nslow;	// every slow callback can hold the timer thread for SLOW_MS
+		if (state_at((int)b, seq_stop, &due) == 1 && due <= t_stop - (SLACK + (SLOW_MS + 1) * nslow) * MS)
 			bad("pending-event-runs", "due-event-not-run-by-horizon", evname(b) + " due " + tms(due - t0) + " still pending when stop() was called at " + tms(t_stop - t0));
 	}
 	std::string out;
